@@ -323,7 +323,7 @@ def c01(v):
                     continue
                 seen.add((y, m, d))
                 plan.append(("D.try_from_ymd", [y, m, d], ("eq", [0, n]) if verdict == 0 else ("errk", verdict)))
-                plan.append(("D.is_valid", [y, m, d], ("eq", 1 if verdict == 0 else 0)))
+                plan.append(("D.is_valid", [y, m, d], ("eq", [0, 1 if verdict == 0 else 0])))
             else:
                 _, _, n, verdict = g
                 if ("day", n) in seen:
